@@ -225,6 +225,10 @@ func (d *Demuxer) parse() error {
 	if webpTag != FourCCWEBP {
 		return ErrInvalidRIFF
 	}
+	// The RIFF payload must at least hold the "WEBP" tag that was just read.
+	if fileSize < 4 {
+		return ErrInvalidRIFF
+	}
 	// fileSize is the size after the first 8 bytes (RIFF + size field).
 	// Use uint64 arithmetic to prevent int overflow on 32-bit platforms.
 	totalSize64 := uint64(fileSize) + 8
